@@ -44,8 +44,6 @@ def run_pair(hbin, args, timeout=900):
                     OPS_SEEN.update(f[4:].split(","))
         elif l.startswith("OPS "):
             REGISTRY["names"] = l.split()[1].split(",")
-        elif l.startswith("MODE romsizedata="):
-            REGISTRY["romsizedata"] = l.strip().endswith("=1")
     if rc != 0:
         raise RuntimeError("harness failed rc=%s: %s" % (rc, err[-2000:]))
     rc2, model, err2 = vlib.run([_oracle()], input_bytes=impl.encode(), timeout=timeout)
@@ -111,6 +109,11 @@ def judge(inst):
         return ("the front-end panics", "panic")
     if inst["result"] == "ok" and inst["wf"] is False and not only_unmodelled(inst):
         return ("the emitted machine is ill-formed: " + ",".join(inst["reasons"]), "ill-formed")
+    if inst["result"] == "ok" and inst["cf"] is False and (inst["kind"].startswith("corpus:") or "+romsize" in inst["kind"]):
+        # these sources jump to labels only: a target beyond the program means the word was assembled with another ROM address
+        # width than the machine declares (the romsize + data section defect repaired in /repo ffd6556)
+        return ("a jump to a label lands beyond the program: the ROM address was encoded on another width than the machine declares",
+                "jump-target-misplaced")
     return None
 
 
@@ -589,6 +592,13 @@ def run(rep):
         insts += instances(model)
         _, model = run_pair(hbin, ["lib", vlib.REPO, "nodyn"])
         insts += instances(model)
+        # regressions: fixed sources of defects found through this check
+        cdir = os.path.join(vlib.CORPUS, PROP)
+        if os.path.isdir(cdir):
+            for f in sorted(os.listdir(cdir)):
+                if f.endswith(".basm"):
+                    _, model = run_pair(hbin, ["text", os.path.join(cdir, f), "corpus:" + f[:-5]])
+                    insts += instances(model)
         # the opcode registry itself + one source per high-level matcher pattern of every opcode (with and without the chooser)
         _, model = run_pair(hbin, ["ops"])
         insts += instances(model)
@@ -658,13 +668,6 @@ def run(rep):
                        "bondgo's single-processor output (-save-machine) is a processor, not a BondMachine: not an instance of this property",
                        "dynamic opcode families (rsetsN, …) are outside BMV.Arch.layout: such machines get the verdict 'unmodelled'"] + notes,
     })
-    if REGISTRY.get("romsizedata") is False:
-        rep.coverage["unmodelled"].append("OPEN DEFECT of the tree under test (probed, not generated): `cpdef … romsize:N` together with a romdata section — "
-                     "CreateConnectingProcessor sizes the ROM with `2 ^ val` (XOR, not a power) + the data words, the program is assembled "
-                     "with that address width, then assembler2NewBondMachine recomputes O from code + data: jump targets are encoded "
-                     "on one width and declared on another (`jz r0, last` to address 5 reads 10 with romsize:3 or :6 and 4 data words), "
-                     "and the requested depth is ignored.  Proposed repair: repo_patches/C16-romsize-romdata.diff.  Until the probe "
-                     "(harness/basmdump ProbeRomsizeData) passes, generated sources do not combine romsize with romdata")
     names = REGISTRY.get("names", [])
     rep.coverage["static_opcodes"] = {
         "registered": len(names), "registered_twice": REGISTRY.get("dups", []),
@@ -721,7 +724,7 @@ def replay(rep, path):
     vlib.lake_build([EXE])
     obj = json.load(open(path))
     src = obj.get("source")
-    if not src or not str(obj.get("front_end", "gen:")).startswith(("gen:", "text", "ops:")):
+    if not src or not str(obj.get("front_end", "gen:")).startswith(("gen:", "text", "ops:", "corpus:")):
         rep.coverage.update({"evaluations": 1, "distinct_nontrivial": 1, "rule": "replay of " + path + " (no source text stored: front-end instance, re-run the check)",
                              "samples": [obj.get("input")]})
         return
